@@ -207,6 +207,8 @@ def run(tier):
     for cfgname in cfgs:
         prog = Program.load(which=('SRC',), cfg=cfgname)
         eff = Effects(prog)
+        from ..rules import symbolic as _sym
+        _sym.dfs_twin_rule(chk, 'C01.dfs', prog, [q + 'column_dfs' for q in 'sdcz'], cfgname)
         chk.clause('C01.D1', 'R3 dispatch oracle of ?gssv')
         chk.clause('C01.D2', 'R3/R7 permutation roles and solve order of ?gstrs')
         n1 = n2 = 0
